@@ -154,6 +154,14 @@ class SLRef:
         self.sid = sid
 
 
+class IdxStr(__import__("pyvc.core", fromlist=["StrV"]).StrV):
+    """entry `index` of the symbolic-length list of opaque strings `list_sid`: opaque text, but it knows where it came from"""
+
+    def __init__(self, list_sid, index):
+        super().__init__("<entry of a list of strings>")
+        self.list_sid, self.index = list_sid, index
+
+
 STR_LIST = "<str>"        # class marker of a symbolic-length list of opaque strings (only the number of entries is tracked)
 
 
@@ -183,8 +191,7 @@ def symlist_get(ex, st, ref, i, node=None):
         ex.safe(st, "list-index", z3.And(i >= 0, i < d.length), node)
     v = z3.Select(d.arr, i)
     if d.cls == STR_LIST:
-        from .core import StrV
-        return StrV("<entry of a list of strings>")
+        return IdxStr(ref.sid, i)
     if d.cls is not None:
         return SObj(d.cls, v, owner=d.owner)
     return v
